@@ -92,14 +92,14 @@ func (o c20Out) key() string {
 
 // pointer printing is exempted by the property: addresses are masked before comparing
 var reAddr = regexp.MustCompile(`0x[0-9a-fA-F]{6,}`)
-var reByteDump = regexp.MustCompile(`\[\]byte\{(?:0x[0-9a-f]{2}(?:, )?)+\}`)
+var reByteDump = regexp.MustCompile(`\[\]byte\{(?:0x[0-9a-f]{1,2}(?:, )?)+\}`)
 
 // maskAddrs: addresses are masked where they are printed as text and where that text was dumped byte by byte
 // (an encoded pointer: (json (& x)) is the pointer's printed form as bytes)
 func maskAddrs(s string) string {
 	s = reByteDump.ReplaceAllStringFunc(s, func(d string) string {
 		var b []byte
-		for _, h := range regexp.MustCompile(`0x([0-9a-f]{2})`).FindAllStringSubmatch(d, -1) {
+		for _, h := range regexp.MustCompile(`0x([0-9a-f]{1,2})`).FindAllStringSubmatch(d, -1) {
 			v, _ := strconv.ParseUint(h[1], 16, 8)
 			b = append(b, byte(v))
 		}
